@@ -143,3 +143,41 @@ func VerifH_C10_FirstMatch_S9() {
 		verifrt.Assert(verifrt.EqBytes(name, q.Name) && typ == uint16(q.Type) && class == uint16(q.Class), "upstream query carries exactly the (lower-cased) question")
 	}
 }
+
+// VerifH_C10_LoadRejects: configurations that name an unknown upstream / domain-set tag, repeat a tag or
+// omit a required field are rejected at start-up; the corresponding correct configuration starts.
+func VerifH_C10_LoadRejects() {
+	verifrt.Unwind(400)
+	verifrt.CtxNoExpiry = true
+	cfg := &Config{
+		Upstreams:  []UpstreamConfig{{Tag: "u1", Addr: "udp://192.0.2.1"}},
+		DomainSets: []DomainSetConfig{{Tag: "d1"}},
+		Rules:      []RuleConfig{{Domain: "d1", Forward: "u1"}, {Reject: 5}},
+	}
+	defect := verifrt.Choose("defect", 8)
+	switch defect {
+	case 1:
+		cfg.Upstreams = append(cfg.Upstreams, UpstreamConfig{Tag: "u1", Addr: "udp://192.0.2.2"}) // repeated upstream tag
+	case 2:
+		cfg.DomainSets = append(cfg.DomainSets, DomainSetConfig{Tag: "d1"}) // repeated domain-set tag
+	case 3:
+		cfg.Rules[0].Forward = "u2" // unknown upstream
+	case 4:
+		cfg.Rules[0].Domain = "d2" // unknown domain set
+	case 5:
+		cfg.Upstreams[0].Addr = "" // missing address
+	case 6:
+		cfg.Upstreams[0].Tag = "" // missing tag
+	case 7:
+		cfg.Upstreams[0].Addr = "gopher://192.0.2.1" // unsupported protocol
+	}
+	r, err := run(context.Background(), cfg)
+	verifrt.Reach("returned")
+	if defect == 0 {
+		verifrt.Assert(err == nil && r != nil, "the correct configuration starts")
+		verifrt.Assert(len(r.rules) == 2 && r.rules[0].upstream == r.upstreams["u1"] && r.rules[0].matcher == r.domainSets["d1"], "rules are bound to the tagged upstream and domain set, in order")
+		r.close(nil)
+		return
+	}
+	verifrt.Assert(err != nil && r == nil, "a configuration with an unknown / repeated tag or a missing field is rejected at start-up, not silently ignored")
+}
